@@ -21,11 +21,15 @@ def _valid(spec):
 _MSG = {}
 
 
+_DECOY = [None]
+
+
 def _fails(prop_id, spec, sc, rule):
     from . import driver
     if not _valid(spec):
         return False, None
-    _, st, pay = runner.run_one(driver.replay_job, {"prop": prop_id, "spec": spec, "scenario": sc, "rule": rule}, wall=90)
+    _, st, pay = runner.run_one(driver.replay_job, {"prop": prop_id, "spec": spec, "scenario": sc, "rule": rule,
+                                                    "decoy_spec": _DECOY[0]}, wall=90)
     if st != "ok":
         return False, None
     for v in pay["violations"]:
@@ -61,10 +65,20 @@ def _ddmin_list(items, test):
     return items
 
 
-def minimise(prop_id, mod, spec, sc, rule, budget_s=150, max_tests=120):
+def minimise(prop_id, mod, spec, sc, rule, budget_s=150, max_tests=120, decoy=None):
     t0 = time.perf_counter()
     tests = [0]
     _MSG.clear()
+    _DECOY[0] = None
+    needs_decoy = None
+    if decoy is not None:
+        # does the failure need the earlier generation in the same process?
+        if _fails(prop_id, spec, sc, rule)[0]:
+            needs_decoy = False
+        else:
+            needs_decoy = True
+            _DECOY[0] = decoy
+        _MSG.clear()
     spec = copy.deepcopy(spec)
     sc = copy.deepcopy(sc)
 
@@ -79,7 +93,8 @@ def minimise(prop_id, mod, spec, sc, rule, budget_s=150, max_tests=120):
     f2, p2 = _fails(prop_id, spec, sc, rule)
     if not (f1 and f2):
         return spec, sc, {"minimised": False, "reproduced": False}
-    info = {"minimised": True, "reproduced": True, "deterministic": p1.get("digest") == p2.get("digest")}
+    info = {"minimised": True, "reproduced": True, "deterministic": p1.get("digest") == p2.get("digest"),
+            "needs_decoy": needs_decoy}
     if sc is not None:
         # 1. drop actors / operations
         def with_ops(flat):
